@@ -62,6 +62,10 @@ def shards(tier, seed):
         n1 = len(events(build(hname, [], 0)))
         out += [(hname, i) for i in range(n1)]
     out += [("declared-default", "default"), ("declared-default", "factory")]
+    # the array holders once more with their array class GIVEN A NAME by subclassing (class Line(xo.Ref[Elem][2]): pass)
+    for hname in ("array-ref", "array-uref", "array-of-array-refs-empty"):
+        n1 = len(events(build(hname, [], 0)))
+        out += [(hname + "@named", i) for i in range(n1)]
     return out[seed % len(out):] + out[: seed % len(out)]
 
 
@@ -77,6 +81,7 @@ def obj_value(t, n):
 class World:
     def __init__(self, hname, salt=0):
         self.hname = hname
+        hname = hname.split("@")[0]
         _EMPTY[0] = hname.endswith("-empty")
         self.ht, self.slots, self.members = HOLDERS[hname]
         self.B = place.traced("np", 8, default_alignment=8, grow_step=8)
@@ -195,6 +200,8 @@ def events(w, max_holders=2):
     if len(w.holders) < max_holders:
         for b in (None, w.pool[0]):
             evs.append(("construct", b))
+        if w.ht[0] != "U":
+            evs.append(("construct", "copy"))
     return evs
 
 
@@ -286,6 +293,10 @@ def apply(w, ev, n):
         while w.B.capacity == cap and k < 64:
             w.B.allocate(8)
             k += 1
+    elif kind == "construct" and ev[1] == "copy":
+        # another holder made as a COPY of the first one in the same buffer: references share their referents
+        src, binding = w.holders[0]
+        w.holders.append((xt.construct(w.ht, src, _buffer=w.B), dict(binding)))
     elif kind == "construct":
         w.add_holder(ev[1])
     else:
@@ -437,11 +448,13 @@ def step_and_check(w, ev, n, res):
 def run_shard(shard, tier, seed):
     hname, first = shard
     res = common.ShardResult()
+    if hname.endswith("@named"):
+        xt.DECL[0] = "named-subclass"  # this process only
     if hname == "declared-default":
         run_defaults(first, tier, res)
         return res
     depth = 4 if tier == "quick" else 5
-    if len(HOLDERS[hname][1]) > 1:
+    if len(HOLDERS[hname.split("@")[0]][1]) > 1:
         depth -= 1
     feats = dict(holder=hname)
     seen = set()
@@ -483,7 +496,7 @@ def run_shard(shard, tier, seed):
         frontier = nf
     res.states = res.nontrivial = len(seen)
     if first == 0:
-        res.sample(dict(holder=hname, type=xt.show(HOLDERS[hname][0]), depth=depth, states_below_first_event=len(seen)))
+        res.sample(dict(holder=hname, type=xt.show(HOLDERS[hname.split("@")[0]][0]), depth=depth, states_below_first_event=len(seen)))
     return res
 
 
@@ -495,6 +508,8 @@ def replay(case):
             r = ("C08.accepts", "event-raises:" + common.exc_failure(e), repr(e))
         return [r] if r else []
     hname = case["holder"]
+    if hname.endswith("@named"):
+        xt.DECL[0] = "named-subclass"
     hist = []
     for i in case["hist_idx"]:
         wb = build(hname, hist, 0)
